@@ -126,19 +126,11 @@ fn extract<'tcx>(tcx: TyCtxt<'tcx>) -> Option<String> {
     let mut out = String::new();
     let _ = writeln!(out, "{{\"k\":\"crate\",\"crate\":{}}}", js(&krate));
 
-    // ADTs, impls, consts
-    for ldid in tcx.hir_crate_items(()).definitions() {
-        let did = ldid.to_def_id();
-        match tcx.def_kind(did) {
-            DefKind::Struct | DefKind::Enum | DefKind::Union => emit_adt(tcx, did, &mut out),
-            DefKind::Impl { .. } => emit_impl(tcx, did, &mut out),
-            DefKind::Trait => emit_trait(tcx, did, &mut out),
-            DefKind::Const { .. } | DefKind::AssocConst { .. } => emit_const(tcx, did, &mut out),
-            _ => {}
-        }
-    }
-
-    // bodies
+    // bodies. Phase 1: snapshot every `mir_built` body BEFORE any query that could steal it
+    // (type/instance resolution may run borrowck of an opaque type's defining function, which
+    // steals mir_built of that function and its closures; which ones depends on query order and
+    // on the incremental cache, so the snapshot is what keeps the facts deterministic).
+    let mut owners: Vec<(LocalDefId, &'static str, Option<(Body<'tcx>, &'static str)>)> = Vec::new();
     for ldid in tcx.hir_body_owners() {
         let did = ldid.to_def_id();
         let kind = tcx.def_kind(did);
@@ -149,7 +141,31 @@ fn extract<'tcx>(tcx: TyCtxt<'tcx>) -> Option<String> {
             DefKind::SyntheticCoroutineBody => "CoroutineBody",
             _ => continue,
         };
-        emit_body(tcx, ldid, kname, &krate, &mut out);
+        let steal = tcx.mir_built(ldid);
+        let snap = if !steal.is_stolen() {
+            Some((steal.borrow().clone(), "built"))
+        } else {
+            // stolen by an earlier body's MIR build (e.g. the hidden type of an awaited async fn was needed):
+            // mir_promoted is the same CFG before drop elaboration and before the coroutine state transform
+            let prom = tcx.mir_promoted(ldid).0;
+            if !prom.is_stolen() { Some((prom.borrow().clone(), "promoted")) } else { None }
+        };
+        owners.push((ldid, kname, snap));
+    }
+    // ADTs, impls, consts (const evaluation may steal: after the snapshot)
+    for ldid in tcx.hir_crate_items(()).definitions() {
+        let did = ldid.to_def_id();
+        match tcx.def_kind(did) {
+            DefKind::Struct | DefKind::Enum | DefKind::Union => emit_adt(tcx, did, &mut out),
+            DefKind::Impl { .. } => emit_impl(tcx, did, &mut out),
+            DefKind::Trait => emit_trait(tcx, did, &mut out),
+            DefKind::Const { .. } | DefKind::AssocConst { .. } => emit_const(tcx, did, &mut out),
+            _ => {}
+        }
+    }
+    // Phase 2: emit from the snapshots
+    for (ldid, kname, snap) in owners.iter() {
+        emit_body(tcx, *ldid, kname, &krate, snap.as_ref(), &mut out);
     }
     Some(out)
 }
@@ -642,16 +658,21 @@ impl<'a, 'tcx> Cx<'a, 'tcx> {
     }
 }
 
-fn emit_body<'tcx>(tcx: TyCtxt<'tcx>, ldid: LocalDefId, kname: &str, krate: &str, out: &mut String) {
+fn emit_body<'tcx>(
+    tcx: TyCtxt<'tcx>,
+    ldid: LocalDefId,
+    kname: &str,
+    krate: &str,
+    snap: Option<&(Body<'tcx>, &'static str)>,
+    out: &mut String,
+) {
     let did = ldid.to_def_id();
     let (file, line) = span_loc(tcx, tcx.def_span(did));
     let generated = file.contains("/generated/");
-    let steal = tcx.mir_built(ldid);
     let mut stage = "built";
-    let borrowed;
-    let body: &Body<'tcx> = if !steal.is_stolen() {
-        borrowed = steal.borrow();
-        &borrowed
+    let body: &Body<'tcx> = if let Some((b, st)) = snap {
+        stage = st;
+        b
     } else {
         stage = "optimized";
         if tcx.is_mir_available(did) && !matches!(tcx.def_kind(did), DefKind::SyntheticCoroutineBody) {
